@@ -61,7 +61,7 @@ class C09(Prop):
                    "a leaf is a definition without children and without cables",
                    "instance data compared = user keys (not '.NAME', '.NS', 'EDIF.identifier', which flatten "
                    "is allowed to rewrite)"]
-    runs = {"quick": 3000, "thorough": 80000}
+    runs = {"quick": 8000, "thorough": 200000}
 
     def configure(self, rng, tier):
         cfg = hier_config(rng)
